@@ -1,0 +1,29 @@
+//go:build verif
+
+package signature
+
+import "sort"
+
+// VerifRegisteredContext describes a registered signature context. It only exists in builds
+// with the `verif` tag and is used by the external verification harness.
+type VerifRegisteredContext struct {
+	Context         string
+	ChainSeparation bool
+	DynamicSuffix   string
+}
+
+// VerifRegisteredContexts lists all signature contexts registered so far, sorted by name.
+func VerifRegisteredContexts() []VerifRegisteredContext {
+	var out []VerifRegisteredContext
+	registeredContexts.Range(func(k, v any) bool {
+		opts := v.(*contextOptions)
+		out = append(out, VerifRegisteredContext{
+			Context:         string(k.(Context)),
+			ChainSeparation: opts.chainSeparation,
+			DynamicSuffix:   opts.dynamicSuffix,
+		})
+		return true
+	})
+	sort.Slice(out, func(i, j int) bool { return out[i].Context < out[j].Context })
+	return out
+}
